@@ -15,6 +15,7 @@ type executor struct {
 	msgs  [4]*stun.Message
 	stale [4]bool // attribute views point into memory overwritten by a failed header-stage decode
 	ag    *agentExec
+	hm    [8]*hmSlot
 	ext  map[string]func(*executor, []string) (string, bool)
 }
 
